@@ -103,6 +103,7 @@ type Op struct {
 	Keys  []CtxKey `json:"keys,omitempty"`
 	Nil   bool    `json:"nil,omitempty"`  // pass a nil writer / nil ctx
 	Probe bool    `json:"probe,omitempty"`
+	X     []byte  `json:"x,omitempty"` // raw message bytes (overrides Msg)
 }
 
 type TimeSpec struct {
@@ -137,6 +138,7 @@ type Arg struct {
 	Items []Arg   `json:"items,omitempty"`
 	Ref   int     `json:"ref,omitempty"`
 	Y     bool    `json:"y,omitempty"` // yielding variant
+	X     []byte  `json:"x,omitempty"` // raw bytes for the string content (overrides S; JSON strings cannot carry invalid UTF-8)
 }
 
 // Event is one entry of the world's event log.
